@@ -95,7 +95,7 @@ def Snap.get (s : Snap) (n : String) : Option Val :=
   | none => none
 
 /-- instances of the last class have a `__dict__`: some class of the chain is not slotted -/
-def hasDictOf (cs : List Cls) : Bool := cs.any (fun c => !c.slots)
+def hasDictOf (cs : List Cls) : Bool := cs.any Cls.givesDict
 
 /-- the fault position if it falls on one of the `n` callbacks of the undisturbed run -/
 def hitPos (fault : Option Nat) (n : Nat) : Option Nat :=
@@ -104,7 +104,8 @@ def hitPos (fault : Option Nat) (n : Nat) : Option Nat :=
   | none => none
 
 /-- one assignment `n = v` with optional fault position, previous snapshot `prev`, observed `o` -/
-def stepOk (cs : List Cls) (rv : Bool) (fault : Option Nat) (prev : Snap) (a : Assign) (o : StepObs) : Bool :=
+def stepOk (cs : List Cls) (rv : Bool) (fault : Option Nat) (k : Option FaultKind) (prev : Snap) (a : Assign)
+    (o : StepObs) : Bool :=
   match effChain cs a.name with
   | none =>
     -- plain store: no callback runs; the value itself is stored (if the layout has a place for it)
@@ -117,7 +118,8 @@ def stepOk (cs : List Cls) (rv : Bool) (fault : Option Nat) (prev : Snap) (a : A
     match hitPos fault evs.length with
     | some p =>
       -- the p-th callback raises: its exception propagates, nothing later runs, nothing changes
-      o.exc == (evs[p]?).map (fun e => Exc.user (tok e.id)) && o.trace == evs.take (p + 1) && o.values == prev
+      -- (whatever its type: KeyError, AttributeError, StopIteration, a BaseException … are not special)
+      o.exc == (evs[p]?).map (fun e => faultExc k (tok e.id)) && o.trace == evs.take (p + 1) && o.values == prev
     | none =>
       if h.contains .frozen then
         -- `setters.frozen` is reached: FrozenAttributeError, nothing changes
@@ -128,10 +130,11 @@ def stepOk (cs : List Cls) (rv : Bool) (fault : Option Nat) (prev : Snap) (a : A
 def ctorOk (cs : List Cls) (a : Assign) (o : StepObs) : Bool :=
   if isDefineDefault cs a.name && o.exc == none then o.ctor.isSome && o.ctor == Snap.get o.values a.name else true
 
-def stepsOk (cs : List Cls) (rv : Bool) (fault : Option (Nat × Nat)) : Nat → Snap → List Assign → List StepObs → Bool
+def stepsOk (cs : List Cls) (rv : Bool) (fault : Option (Nat × Nat)) (k : Option FaultKind) :
+    Nat → Snap → List Assign → List StepObs → Bool
   | _, _, [], [] => true
   | i, prev, a :: as, o :: os =>
-    stepOk cs rv (faultAt fault i) prev a o && ctorOk cs a o && stepsOk cs rv fault (i + 1) o.values as os
+    stepOk cs rv (faultAt fault i) k prev a o && ctorOk cs a o && stepsOk cs rv fault k (i + 1) o.values as os
   | _, _, _, _ => false
 
 /-- the names the observation reports, in order -/
@@ -201,7 +204,7 @@ def spec (c : Case) (o : Obs) : Bool :=
   rejectOk o.defErr 0 [] c.classes &&
   (if clean c.classes then
      o.defErr == none &&
-     stepsOk c.classes c.runValidators c.fault 0 (initSnap c.classes c.preset c.history) c.history o.steps
+     stepsOk c.classes c.runValidators c.fault c.faultKind 0 (initSnap c.classes c.preset c.history) c.history o.steps
    else true)
 
 /-! ## Preconditions and known deviations -/
